@@ -727,6 +727,7 @@ type gen struct {
 	r     *hx.Rng
 	class map[string]int
 	nmsg  int
+	nrare int
 }
 
 func (g *gen) count(c string) { g.class[c]++ }
@@ -785,7 +786,7 @@ func (g *gen) sk() *big.Int {
 // messages AND messages whose hash point has a short (leading-zero-byte) x or y coordinate
 func (g *gen) msg() []byte {
 	g.nmsg++
-	return g.msgClass(g.nmsg % 8)
+	return g.msgClass(g.nmsg % 9)
 }
 
 func (g *gen) msgClass(c int) []byte {
@@ -805,6 +806,10 @@ func (g *gen) msgClass(c int) []byte {
 		return shortCoordMsg(r, "y", 248)
 	case 6:
 		return r.Bytes(64)
+	case 8:
+		// a message whose hash needs many candidates (committed pool, rotating)
+		g.nrare++
+		return []byte(rarePool[g.nrare%len(rarePool)])
 	default:
 		return r.Bytes(1 + r.Intn(70))
 	}
@@ -1348,6 +1353,26 @@ func runCorr(a map[string]string) {
 			do("g1u " + hx.Hex(sb))
 		}
 	}
+	// rare hash-to-point behaviour: a small fresh grind (reference counts the candidates), hashed,
+	// signed and verified; the identity signature must be rejected for every message
+	{
+		tries := 30000
+		if thorough {
+			tries = 1500000
+		}
+		fresh := grindRare(r, tries, 3, "")
+		for _, m := range append(fresh, rarePoolMsgs()[:4]...) {
+			g.count(fmt.Sprintf("hash-candidates-%02d", m.count))
+			sk := g.sk()
+			pkb := groupsig.GeneratePubkey(seckeyOf(sk)).Serialize()
+			do("h2p " + hx.Hex(m.msg))
+			do("sign " + sk.String() + " " + hx.Hex(m.msg))
+			hs := new(bn.G1).ScalarMult(refG1(m.msg), sk).Marshal()
+			do("verify " + hx.Hex(pkb) + " " + hx.Hex(m.msg) + " " + hx.Hex(hs))
+			do("verify " + hx.Hex(pkb) + " " + hx.Hex(m.msg) + " " + hx.Hex(make([]byte, 64)))
+			do("verifyp " + hx.Hex(pkb) + " " + hx.Hex(m.msg) + " " + hx.Hex(make([]byte, 64)))
+		}
+	}
 	// 2. G1 arithmetic and hashing
 	for i := 0; i < narith; i++ {
 		p := hx.Hex(g.point())
@@ -1640,6 +1665,12 @@ func main() {
 	switch a["mode"] {
 	case "search":
 		runSearch(a)
+	case "grind":
+		// one-off: grind messages with many hash candidates; prints `count message`
+		g := hx.NewRng(hx.SeedFromEnv())
+		for _, m := range grindRare(g, hx.ArgInt(a, "tries", 1000000), hx.ArgInt(a, "keep", 12), a["prefix"]) {
+			fmt.Printf("%d %q\n", m.count, string(m.msg))
+		}
 	case "scenario":
 		// clean-process reference for the history check of the searcher
 		fmt.Println("DIGEST " + scenarioDigest(hx.SeedFromEnv()))
